@@ -50,7 +50,7 @@ def cache_key(tier, seed):
     tree_hash(h, d.SPEC, (".tla", ".cfg"))
     tree_hash(h, os.path.join(d.HARNESS, "src"), (".rs",))
     tree_hash(h, os.path.join(d.VERIF, "lib"), (".py",))
-    h.update(("%s/%s" % (tier, seed)).encode())
+    h.update(("%s/%s/%s" % (tier, seed, os.environ.get("VERIF_ONLY_FAMILIES", ""))).encode())
     return h.hexdigest()[:24]
 
 
@@ -123,7 +123,10 @@ def run_campaign(tier, seed):
            "benign": 0, "gate_rejected": 0, "findings": [], "samples": [], "families": {}, "spec_cex": 0}
     workers = 10 if tier == "quick" else 14
     defs_cache = {}
+    only = [x for x in os.environ.get("VERIF_ONLY_FAMILIES", "").split(",") if x]   # development aid (seeded-change triage)
     for (fam, maxargv, inv) in PLAN[tier]:
+        if only and fam.split("+")[0] not in only:
+            continue
         tag = "%s-%d" % (fam.replace("+", "_"), maxargv)
         if fam not in defs_cache:
             raw = os.path.join(w, "defs_%s.ndjson" % fam.replace("+", "_"))
